@@ -384,11 +384,13 @@ func (sc *scen) doReplenish(pool bool, mut string) *outcome {
 	case "duplicate":
 		accts = append(accts, accts[0])
 	}
-	// ground truth: what is due
+	// ground truth: what is due; an account listed twice is topped up once
 	due := types.ZeroCurrency
+	planned := map[proto4.Account]types.Currency{}
 	for _, a := range accts {
-		if v, under := target.SubWithUnderflow(ledger[a]); !under {
+		if v, under := target.SubWithUnderflow(ledger[a].Add(planned[a])); !under {
 			due = due.Add(v)
+			planned[a] = planned[a].Add(v)
 		}
 	}
 	mkReq := func(accts []proto4.Account, target types.Currency, id types.FileContractID) *proto4.RPCReplenishAccountsRequest {
